@@ -56,21 +56,33 @@ def yields(fn_node):
             ('T', _sub(c, env)) for c in conds])]
       return levels, env
     env = dict(env)
-    env.pop(target, None)
+    for nm in target.split(','):
+      env.pop(nm, None)
     levels = levels + [{'target': target, 'iter': it,
                         'conds': [('T', _sub(c, env)) for c in conds]}]
     return levels, env
+
+  def tname(t):
+    """a loop target as text: a name, or names joined by ',' for a flat tuple"""
+    if isinstance(t, ast.Name):
+      return t.id
+    if isinstance(t, (ast.Tuple, ast.List)) and t.elts and all(
+        isinstance(x, ast.Name) for x in t.elts):
+      return ','.join(x.id for x in t.elts)
+    return None
 
   def comp(node, levels, env, acc='<return>'):
     """a comprehension appended below the current levels"""
     lv = [dict(l, conds=list(l['conds'])) for l in levels]
     env = dict(env)
     for g in node.generators:
-      if not isinstance(g.target, ast.Name):
-        problems.append('tuple target')
+      if tname(g.target) is None:
+        problems.append('nested tuple target')
         return
-      lv, env = push(lv, env, g.target.id, g.iter, list(g.ifs))
-    out.append((lv, _sub(node.elt, env), acc))
+      lv, env = push(lv, env, tname(g.target), g.iter, list(g.ifs))
+    elt = node.elt if not isinstance(node, ast.DictComp) else ast.Tuple(
+        elts=[node.key, node.value], ctx=ast.Load())
+    out.append((lv, _sub(elt, env), acc))
 
   lists = {}     # name -> single-element list display it was initialised with
 
@@ -108,8 +120,19 @@ def yields(fn_node):
             walk(others, l2, e2)
             continue
       if isinstance(st, ast.Assign) and len(st.targets) == 1 and isinstance(
+          st.targets[0], ast.Subscript) and isinstance(st.targets[0].value, ast.Name) \
+          and levels:
+        # acc[K] = V inside the loops: the pair (K, V) goes into the mapping
+        t0 = st.targets[0]
+        out.append((levels, ast.Tuple(elts=[_sub(t0.slice, env), _sub(st.value, env)],
+                                      ctx=ast.Load()), t0.value.id))
+        continue
+      if isinstance(st, ast.Assign) and len(st.targets) == 1 and isinstance(
           st.targets[0], ast.Name):
         v = st.value
+        if isinstance(v, ast.DictComp):
+          comp(v, levels, env, st.targets[0].id)
+          continue
         if isinstance(v, ast.GeneratorExp):
           env[st.targets[0].id] = _sub(v, env)
         elif isinstance(v, (ast.SetComp, ast.ListComp)) or (
@@ -122,10 +145,10 @@ def yields(fn_node):
           env[st.targets[0].id] = _sub(v, env)
         continue
       if isinstance(st, ast.For):
-        if not isinstance(st.target, ast.Name):
-          problems.append('tuple target')
+        if tname(st.target) is None:
+          problems.append('nested tuple target')
           continue
-        l2, e2 = push(levels, env, st.target.id, st.iter, [])
+        l2, e2 = push(levels, env, tname(st.target), st.iter, [])
         # leaving the loop early means later elements are never looked at
         def same_loop(x):
           yield x
@@ -176,7 +199,7 @@ def yields(fn_node):
         if isinstance(v, ast.Call) and core.dotted(v.func) in (
             'set', 'frozenset', 'list', 'tuple') and len(v.args) == 1:
           v = v.args[0]
-        if isinstance(v, (ast.SetComp, ast.ListComp, ast.GeneratorExp)):
+        if isinstance(v, (ast.SetComp, ast.ListComp, ast.GeneratorExp, ast.DictComp)):
           comp(v, levels, env)
         continue
   walk(fn_node.body, [], {})
